@@ -167,6 +167,21 @@ Proof.
   exists st. split; [exact E1|]. split; [exact E2|]. eapply models_ext; eauto.
 Qed.
 
+Theorem update_clean_stats : forall m t1 t2 u f states,
+  tok (restrict m t1) -> tok (restrict m t2) -> flat_ok t1 ->
+  uokp u (keys (restrict m t1) ++ keys (restrict m t2)) ->
+  models (restrict m t1) u f ->
+  o_res (run_update f states (diff_fs m t1 t2)) = ROk (fold_left bump (diff_fs m t1 t2) stats0)
+  /\ models (restrict m t2) u (o_fs (run_update f states (diff_fs m t1 t2))).
+Proof.
+  intros m t1 t2 u f states HA HB H1 Hu Hm.
+  destruct (diff_fs_valid rn m t1 t2 u HA HB H1 Hu) as [Hv [Hfin [Hs Hd]]].
+  assert (HuA : uok u (restrict m t1)).
+  { eapply uokp_uok; eauto. intros p v Hp. apply in_or_app. left. eapply leaf_keys; eauto. }
+  destruct (clean_update rn _ _ u f states HA HuA Hv Hm Hs Hd) as [st [E1 [E2 [E4 [E3 _]]]]].
+  split; [congruence|]. eapply models_ext; eauto.
+Qed.
+
 Theorem check_out_clean : forall w t2 u f,
   let m := matches (wc_sparse w) in
   tok (restrict m (wc_tree w)) -> tok (restrict m t2) -> flat_ok (wc_tree w) ->
